@@ -52,4 +52,4 @@ For each change k (k = 1..{n}) deliver in {out}/k/ :
   - patch.diff : output of `git -C {wt} diff` for that change alone (must apply to a clean checkout with `git apply`).
   - demo.py    : a standalone script, run as `cd /tmp && PYTHONPATH=<tree> /venv/bin/python demo.py`, that exits 0 on the UNCHANGED tree and exits non-zero (failed assertion) on the CHANGED tree, demonstrating the violation of the property as stated above (assert about the property, not about implementation details). It must only use the public API of productmd and temp dirs it cleans up.
   - notes.md   : FIRST LINE = one-line summary "{pid} - <function> - <what the slip is>"; then what the change is, why it breaks the property, what specific circumstances it needs to manifest, and exactly what you ran with results: (a) test suite with the change: N passed; (b) demo.py with the change: fails (show the assertion); (c) demo.py without the change: passes.
-Verify all three of (a), (b), (c) yourself for every change. Between changes restore the checkout with `git -C {wt} checkout -- .` and leave it clean at the end. Your final message should just list the changes (one line each) and confirm the verification results.""")
+Verify all three of (a), (b), (c) yourself for every change. Between changes restore the checkout with `git -C {wt} checkout -- .` (NEVER use `git stash`: the stash is shared with other people's checkouts) and leave it clean at the end. Your final message should just list the changes (one line each) and confirm the verification results.""")
